@@ -498,4 +498,45 @@ theorem run_proj (cfg : Cfg) : ∀ (ls : List Label) (s s' : St), Sched.run (ste
       refine ⟨bl :: bls, by simp [Sched.run, hbl, hb], ?_⟩
       rw [Sched.countSel_cons, Sched.countSel_cons, hc, hrx]
 
+/-- Which channel step a composite step is. -/
+theorem step_chan (cfg : Cfg) (s s' : St) (l : Label) (h : step cfg s l = some s') :
+    ∃ bl, Batcher.step cfg.ch s.ch bl = some s'.ch ∧ (l = .chan bl ∨ (l = .process ∧ ∃ o, bl = .rxOutcome o)) := by
+  cases l with
+  | chan bl =>
+    refine ⟨bl, ?_, .inl rfl⟩
+    cases bl
+    case rxOutcome o => simp [step] at h
+    case rxBegin =>
+      simp only [step] at h
+      cases hb : Batcher.step cfg.ch s.ch .rxBegin with
+      | none => simp [hb] at h
+      | some ch' =>
+        simp only [hb] at h
+        split at h <;> (cases h; rfl)
+    all_goals
+      simp only [step, Option.map_eq_some_iff] at h
+      obtain ⟨ch', hc, rfl⟩ := h
+      exact hc
+  | process =>
+    simp only [step] at h
+    split at h
+    · rename_i orig c ws reqs hrx hcur
+      cases hob : send cfg.tr reqs s.net with
+      | mk r net' =>
+        simp only [hob] at h
+        cases r with
+        | ok =>
+          simp only [Option.map_eq_some_iff] at h
+          obtain ⟨ch', hc, rfl⟩ := h
+          exact ⟨_, hc, .inr ⟨rfl, _, rfl⟩⟩
+        | retry rem =>
+          simp only [Option.map_eq_some_iff] at h
+          obtain ⟨ch', hc, rfl⟩ := h
+          refine ⟨.rxOutcome (.failRetry (itemsOf rem)), ?_, .inr ⟨rfl, _, rfl⟩⟩
+          rw [hc]; split <;> rfl
+        | noRetry =>
+          simp only [Option.map_eq_some_iff] at h
+          obtain ⟨ch', hc, rfl⟩ := h
+          exact ⟨_, hc, .inr ⟨rfl, _, rfl⟩⟩
+    · simp at h
 end EmitModel.OtlpPipe
